@@ -185,6 +185,17 @@ def stepG (divPanics : Bool) (w : List String) : String :=
     | some (g, c), some (g', c') =>
       showOut (fun x => showZs x.commits) (pubAdd (P := Zq q) ⟨g, 1, c⟩ ⟨g', 1, c'⟩)
     | _, _ => "bad-op"
+  | ["pubaddb", p, bp, r, br] =>
+    match parsePoly (q := q) p, parseZ (q := q) bp, parsePoly (q := q) r, parseZ (q := q) br with
+    | some (g, c), some bp, some (g', c'), some br =>
+      showOut (fun x => String.intercalate "," (("base=" ++ showZ x.base) :: x.commits.map showZ))
+        (pubAdd (P := Zq q) ⟨g, bp, c⟩ ⟨g', br, c'⟩)
+    | _, _, _, _ => "bad-op"
+  | ["coeffs", p] =>
+    match parsePoly (q := q) p with
+    | some (_, c) =>
+      "ok " ++ showZs c ++ s!" t={c.length} secret=" ++ (match c with | [] => "-" | s :: _ => showZ s)
+    | _ => "bad-op"
   | ["pubequal", p, r] =>
     match parsePoly (q := q) p, parsePoly (q := q) r with
     | some (g, c), some (g', c') => showBool (pubEqual (P := Zq q) ⟨g, 1, c⟩ ⟨g', 1, c'⟩)
